@@ -76,9 +76,9 @@ def higher_specs(tier, seed):
             d = dists[k % len(dists)] if k % 4 else None
             yield ("sto", {"k": "sto", "left": lt, "rep": rep, "end": end, "right": rt, "dist": d[1] if d else None}, d)
     # molecules
-    prefixes = ["", "N", "[H]", "OC", "CC[>|0|]"]
+    prefixes = ["", "N", "[H]", "OC", "CC[>|0|]", "CC(C)(C)", "CCOC(=O)C(C)(C)"]  # incl. prefixes that end in a closed branch
     suffixes = ["", "F", "[H]", "C(C)CC(c1ccccc1)c1ccccc1", "[<]CO"]
-    conns = [None, "", "S", "CC", "[<]CC[>|0|]"]
+    conns = [None, "", "S", "CC", "[<]CC[>|0|]", "CC(=O)", "C(C)(C)"]
     for p, s, c in itertools.product(prefixes, suffixes, conns):
         k += 1
         if not th and k % 2:
